@@ -1,6 +1,7 @@
 import FluteModel.Props.C09
 import FluteModel.Lemmas.NoCodeDec
 import FluteModel.Lemmas.NoCodeSession
+import FluteModel.Lemmas.FecSession
 /-
   C03  No silent corruption: 'complete' always means the sender's exact bytes.
 
@@ -9,7 +10,12 @@ import FluteModel.Lemmas.NoCodeSession
       environment, EVERY history made of genuine packets of that object - any sub-multiset, any order, any duplication, packets of any
       transfer of the same content, with or without in-band FTI / CENC, FDT attachments with or without OTI, ESIs out of range - and every
       drop point: if the writer was told `complete`, the bytes it accepted are exactly `T`.
-  `complete_implies_exact` - the same for ANY scheme (RS GF(2^8) both variants, RaptorQ, Raptor) for a session `S` satisfying `GSess.Laws`:
+  `complete_implies_exact_rs` - RS GF(2^8), both variants: session constructed from `T` (Lemmas/FecSession.lean: `rsSession_laws`), the only
+      hypothesis about the crate is "reconstruct from genuine shards yields genuine shards".
+  `complete_implies_exact_fec` - RaptorQ / Raptor: BY CONTRACT ONLY, with `D` tied to the sender's block (prefix, ≤ K·E bytes).
+  `writes_are_prefix(_nocode)` - at every point of a genuine history where the writer was not told error/interrupted, the accepted
+      bytes are a prefix of the object; `written_le_transfer_length` - history-independent part.
+  `complete_implies_exact` - the general form for a session `S` satisfying `GSess.Laws`:
       the sender facts (RFC 5052 partition, block k = its K symbols, `pre` = concatenation of the trimmed blocks; C07/C08) and the explicit
       codec contract `CodecOK` (RS: reconstructing from genuine shards yields genuine shards; RaptorQ/Raptor: whatever is decoded from
       genuine symbols is the block) - hypotheses, not axioms.  Invariant carried through push / attach_fdt / push_from_cache / write_blocks
@@ -18,7 +24,10 @@ import FluteModel.Lemmas.NoCodeSession
   For ALL histories of arbitrary (also corrupted) packets:
   `never_both`, `md5_mismatch_errors`, `complete_length_and_digest` (complete => exactly transfer-length bytes written (cenc null), digest
       matched when checked), `nocode_block_exact` (block level).
-  NOT covered (named): cenc != null exactness (needs the decompressor contract `decompress (compress x) = x` threaded through
+  NOT covered (named): the session level `ObjSess` (completed / error gates, re-download on (SBN 0, ESI 0)) has no theorem of its own -
+  every ObjectReceiver it creates is covered by the per-object theorems above for the packets it is handed (stale transfers of the
+  same content are genuine packets), but that composition is not stated in Lean; all theorems assume `run = .ok` (no totality theorem);
+  cenc != null exactness (needs the decompressor contract `decompress (compress x) = x` threaded through
   `decoder_read`; the length/digest theorem above covers every cenc); checked on every run by the oracle `C03:complete-wrong-bytes`.
 -/
 namespace Flute.Props.C03
@@ -156,6 +165,40 @@ theorem complete_implies_exact_nocode (P : Params) (T : Bytes) (o : Oti) (hs : o
     (hops : ∀ op ∈ ops, GenOp (noCodeSession T o) op) (h : run P (St.new toi maxSize) ops = .ok st')
     (hc : ¬ noComplete (drop st').out) : (drop st').written = T :=
   complete_implies_exact P (noCodeSession T o) (noCodeSession_laws P.codec T o hs he hb hb32 hT) toi maxSize ops st' hops h hc
+
+/-- **complete ⇒ exact, Reed-Solomon GF(2^8) (both variants)**: the session is constructed from `T` (source symbols = the `E`-byte
+    slices zero-padded to `E`, repair symbols `rep` = whatever the sender's encoder emits, decoded block = the padded sender block);
+    the ONLY hypothesis about the external crate is `hrs`: reconstructing from genuine shards yields genuine shards
+    ("never a wrong block from genuine symbols"; differentially tested by engine orecv family codec-contract). Non-empty object. -/
+theorem complete_implies_exact_rs (P : Params) (T : Bytes) (o : Oti) (rep : Nat → Nat → Bytes)
+    (hs : o.scheme = .rs28 ∨ o.scheme = .rs28us)
+    (he : 0 < o.e) (hb : 0 < o.b) (hb32 : o.b < 2 ^ 32) (hT : T.length < 2 ^ 32) (hT0 : 0 < T.length)
+    (hrs : ∀ sbn, sbn < (rsSession T o rep).n → ∀ p shards shards',
+        SlotsOK (rsSym T o rep sbn) 0 shards →
+        P.codec.rsReconstruct (sessK T o sbn) p shards = some shards' →
+        SlotsOK (rsSym T o rep sbn) 0 shards')
+    (toi maxSize : Nat) (ops : List Op) (st' : St)
+    (hops : ∀ op ∈ ops, GenOp (rsSession T o rep) op) (h : run P (St.new toi maxSize) ops = .ok st')
+    (hc : ¬ noComplete (drop st').out) : (drop st').written = T :=
+  complete_implies_exact P (rsSession T o rep) (rsSession_laws P.codec T o rep hs he hb hb32 hT hT0 hrs)
+    toi maxSize ops st' hops h hc
+
+/-- **complete ⇒ exact, RaptorQ / Raptor (and any scheme)**: by contract only.  `D sbn` is tied to the SENDER's block
+    (`senderBlock T o sbn <+: D sbn`, at most `K·E` bytes), and the codec contract says the decoder returns `D sbn` from genuine
+    symbols - nothing is proved about the raptorq / raptor-code crates themselves. -/
+theorem complete_implies_exact_fec (P : Params) (T : Bytes) (o : Oti) (sym : Nat → Nat → Bytes) (D : Nat → Bytes)
+    (he : 0 < o.e) (hb : 0 < o.b) (hb32 : o.b < 2 ^ 32) (hT : T.length < 2 ^ 32) (hT0 : 0 < T.length)
+    (hD1 : ∀ sbn, sbn < (fecSession T o sym D).n → senderBlock T o sbn <+: D sbn)
+    (hD2 : ∀ sbn, sbn < (fecSession T o sym D).n → (D sbn).length ≤ (fecSession T o sym D).K sbn * o.e)
+    (hsrc : (o.scheme = .noCode ∨ o.scheme = .rs28 ∨ o.scheme = .rs28us) → ∀ sbn, sbn < (fecSession T o sym D).n →
+        D sbn = genuineConcat (sym sbn) 0 ((fecSession T o sym D).K sbn))
+    (hcodec : ∀ sbn, sbn < (fecSession T o sym D).n →
+        CodecOK P.codec o.scheme (sym sbn) ((fecSession T o sym D).K sbn) o.e sbn (D sbn))
+    (toi maxSize : Nat) (ops : List Op) (st' : St)
+    (hops : ∀ op ∈ ops, GenOp (fecSession T o sym D) op) (h : run P (St.new toi maxSize) ops = .ok st')
+    (hc : ¬ noComplete (drop st').out) : (drop st').written = T :=
+  complete_implies_exact P (fecSession T o sym D)
+    (fecSession_laws P.codec T o sym D he hb hb32 hT hT0 hD1 hD2 hsrc hcodec) toi maxSize ops st' hops h hc
 
 /-- non-vacuity: a concrete genuine history (FDT entry, then the single symbol, received twice) meets the hypotheses of
     `complete_implies_exact_nocode` and ends in `complete` -/
